@@ -17,6 +17,13 @@ import vlib
 from gen import headers
 
 
+import re
+
+
+def mask(b_):
+    return re.sub(rb'/var/tmp/[^\s"]*?/c19/in\d+(/f_\w+)?', b'<DIR>', b_)
+
+
 def main():
     ck = vlib.Check('C19', level='proof')
     ck.coq()
@@ -97,7 +104,8 @@ def main():
             ck.count()
             n_faults += 1
             ck.dist('%s:-%s' % (tool, chan))
-            complete = content is not None and content.replace(os.path.basename(d).encode(), b'') == content and len(content) == len(full)
+            # the run directory appears inside the outputs (#line, command line): compare with it masked
+            complete = content is not None and mask(content) == mask(full)
             # model: replay the observed trace with the fault at event k
             chs = '((1 1 (%s) %d))' % (' '.join(map(str, sizes)), k)
             mstatus, mold, mcomp = vlib.run_model('C19', 'status', [chs])[0].split()
@@ -106,9 +114,10 @@ def main():
                       'bytes_written': None if content is None else len(content), 'bytes_expected': len(full)}
             if rc < 0:
                 ck.spec_failure('signal:%s:%s' % (tool, chan), '%s died from signal %d when event %d on -%s failed' % (tool, -rc, k, chan), replay)
-            elif not complete and rc == 0:
-                ck.spec_failure('silent-loss:%s:-%s' % (tool, chan), '%s exits 0 although -%s is incomplete (event %d of %d failed: %s bytes instead of %d)'
-                                % (tool, chan, k, n, replay['bytes_written'], len(full)), replay)
+            elif rc == 0:
+                # a failed write or close was reported to the stream: success must not be claimed, whether or not the bytes happen to be there
+                ck.spec_failure('silent-loss:%s:-%s' % (tool, chan), '%s exits 0 although %s number %d of %d on -%s failed (%s)'
+                                % (tool, events[k][0], k, n, chan, 'file complete' if complete else 'file incomplete: %s bytes of %d' % (replay['bytes_written'], len(full))), replay)
             elif (rc != 0) != (mstatus != '0'):
                 ck.violation('corr_C19_status', 'model status %s, tool exit %d (event %d of %d on -%s)' % (mstatus, rc, k, n, chan), dict(replay, kind='correspondence'), nofail=True)
             else:
